@@ -1,6 +1,8 @@
 import XzVerif.Proofs.XzSound
 import XzVerif.Proofs.Segment
 import XzVerif.Proofs.Prefix
+import XzVerif.Proofs.LazyDec2
+import XzVerif.Proofs.Fuel
 /-
   C05 — A truncated stream is never mistaken for a complete one (.xz, LZMA2, .lzma).
 
@@ -119,5 +121,43 @@ theorem C05_xz_chain_cut_only_at_boundaries (strict : Bool) (cfgCap : Nat) (ss :
     ∃ ss' : List Stream, ss' ≠ [] ∧ (∀ s ∈ ss', StreamOk strict s ∧ CapOk strict cfgCap s) ∧
       (emitL ss).extract 0 k = emitL ss' ∧ ss'.length ≤ ss.length :=
   xz_chain_prefix_accepted_only_at_boundaries strict cfgCap ss hne hok k hk hclean
+
+theorem extract_of_prefix (b full : ByteArray) (m : Nat) (h : b = full.extract 0 b.size) (hm : m ≤ b.size) :
+    b.extract 0 m = full.extract 0 m := by
+  have h2 : b.extract 0 m = (full.extract 0 b.size).extract 0 m := by rw [← h]
+  rw [h2, ByteArray.extract_extract]
+  congr 1
+  omega
+
+/-! ### truncation at the level the code runs: the lazy ring-level LZMA2 reader (Model/LazyDec2.lean) -/
+
+theorem batch_eq (cfgCap : Nat) (inp : ByteArray) :
+    LazyDec2.batch cfgCap inp = Lzma2.decode false (LazyDec.effCap cfgCap) inp 0 ByteArray.empty := rfl
+
+open LazyDec LazyDec2 in
+/-- No proper prefix of a well-formed LZMA2 chunk sequence is ever reported as a clean end by the lazy ring-level reader
+    model, under ANY schedule of buffer lengths; and whatever it delivers before failing is a prefix of the content. -/
+theorem C05_lazy_lzma2_prefix_never_clean (cfgCap : Nat) (hcap : 4096 ≤ effCap cfgCap) (cs : Array Lzma2.Chunk)
+    (hok : Lzma2.ChunksOk false (Lzma2.e0 (effCap cfgCap)) .init cs.toList) (k : Nat)
+    (hk : k < (Lzma2.emit (effCap cfgCap) (cs.push { kind := .eos, usize := 0 })).size) (lens : List Nat)
+    (cut full : ByteArray)
+    (hcut : cut = (Lzma2.emit (effCap cfgCap) (cs.push { kind := .eos, usize := 0 })).extract 0 k)
+    (hfull : full = (cs.foldl Lzma2.emitChunk (Lzma2.e0 (effCap cfgCap))).h.out) :
+    LazyDec.lastStat (LazyDec2.readSeq (newReader2 cfgCap cut) lens) ≠ .eof ∧
+    (delivered (LazyDec2.readSeq (newReader2 cfgCap cut) lens)).size ≤ full.size ∧
+    delivered (LazyDec2.readSeq (newReader2 cfgCap cut) lens) =
+      full.extract 0 (delivered (LazyDec2.readSeq (newReader2 cfgCap cut) lens)).size := by
+  have hf0 : (LazyDec2.batch cfgCap cut).2 ≠ .err "fuel exhausted" := by
+    rw [batch_eq]; exact Fuel.lzma2_decode_fuel _ _ _ _ _
+  obtain ⟨hd1, hd2⟩ := LazyDec2.delivered_prefix cfgCap hcap cut lens hf0
+  have heofc := LazyDec2.eof_complete cfgCap hcap cut lens hf0
+  have hrej : (LazyDec2.batch cfgCap cut).2 ≠ .eof := by
+    rw [batch_eq, hcut]; exact Lzma2.lzma2_prefix_rejected false (effCap cfgCap) cs hok k hk
+  have hpo := Lzma2.lzma2_prefix_output false (effCap cfgCap) cs hok k hk
+  obtain ⟨hp1, hp2⟩ : (LazyDec2.batch cfgCap cut).1.h.out.size ≤ full.size ∧
+      (LazyDec2.batch cfgCap cut).1.h.out = full.extract 0 (LazyDec2.batch cfgCap cut).1.h.out.size := by
+    rw [batch_eq, hcut, hfull]; exact hpo
+  exact ⟨fun he => hrej (heofc he).1, Nat.le_trans hd1 hp1, hd2.trans (extract_of_prefix _ _ _ hp2 hd1)⟩
+
 
 end Props.C05
